@@ -407,3 +407,43 @@ M2('c18-receive-end-when-waiter-in-done-set', 'C18', 'R6', [
     {'file': WS, 'old': _WAIT_OLD, 'new': _WAIT_SETS},
     {'file': WS, 'old': _END_TEST_OLD, 'new': "            if pop_message_waiter in done:"},
 ], also=('C17',))
+
+# ------------------------------------------------------------------ R8 (= part of C17 R1, shared): a disconnect event in hand on the receive path (wave 7, s7-c18-1)
+_RECV_DISC_OLD = """            self._state = _WebSocketState.CLOSED
+            self._close_code = event.get('code', WSCloseCode.NORMAL)
+            raise errors.WebSocketDisconnected(self._close_code)
+"""
+_SYNC_HELPER = {'file': WS, 'old': "    def _require_accepted(self) -> None:\n", 'new': """    def _sync_client_disconnected(self) -> None:
+        # the receiver is the single source of truth for the client's end
+        receiver = self._buffered_receiver
+        if receiver.client_disconnected:
+            self._state = _WebSocketState.CLOSED
+            self._close_code = receiver.client_disconnected_code
+
+    def _require_accepted(self) -> None:
+"""}
+# the seed: _send and _receive share a helper that copies state and code from the receiver's flag - which only the pump raises
+# (max_receive_queue=0: no pump, a received websocket.disconnect neither closes the socket nor records its code)
+M2('c18-unbuffered-disconnect-synced-from-pump-flag', 'C18', 'R8', [
+    {'file': WS, 'old': """        if self._buffered_receiver.client_disconnected:
+            self._state = _WebSocketState.CLOSED
+            self._close_code = self._buffered_receiver.client_disconnected_code
+
+        if self._state == _WebSocketState.CLOSED:""", 'new': """        self._sync_client_disconnected()
+
+        if self._state == _WebSocketState.CLOSED:"""},
+    {'file': WS, 'old': _RECV_DISC_OLD, 'new': """            self._sync_client_disconnected()
+            raise errors.WebSocketDisconnected(self._close_code)
+"""},
+    _SYNC_HELPER], also=('C17',))
+# the socket is closed, but the code reported is the pump's (None in unbuffered mode), not the event's
+M('c18-unbuffered-disconnect-code-from-pump', 'C18', 'R8', WS, _RECV_DISC_OLD, """            self._state = _WebSocketState.CLOSED
+            self._close_code = self._buffered_receiver.client_disconnected_code
+            raise errors.WebSocketDisconnected(self._close_code)
+""", also=('C17',))
+# closed only when the pump agrees
+M('c18-unbuffered-disconnect-closed-only-under-pump-flag', 'C18', 'R8', WS, _RECV_DISC_OLD, """            if self._buffered_receiver.client_disconnected:
+                self._state = _WebSocketState.CLOSED
+            self._close_code = event.get('code', WSCloseCode.NORMAL)
+            raise errors.WebSocketDisconnected(self._close_code)
+""", also=('C17',))
